@@ -73,4 +73,79 @@ theorem upd_upd_restore (f : Nat → Nat) (c : Nat) : upd (upd f c (f c + 1)) c 
   · rename_i hx; subst hx; simp
   · rfl
 
+/-! ### overlapping calls -/
+
+/-- invariant of every interleaving, relative to the hub `h0` before any call: a thread outside a call has its
+    original binding; a thread inside a call is bound (thread level) to its own transaction and its frame remembers its
+    original binding; the process binding is never touched -/
+structure OvInv (h0 : Hub) (s : HS) : Prop where
+  idle : ∀ t, s.frames t = none → s.hub.thread t = h0.thread t
+  busy : ∀ t f, s.frames t = some f →
+    f.lvl = .thread ∧ s.hub.thread t = some (.tx f.c) ∧ f.old = .base f.c ∧ h0.thread t = some (.base f.c)
+  proc : s.hub.proc = h0.proc
+
+theorem OvInv.step {h0 : Hub} {s : HS} (hi : OvInv h0 s) (ev : Ev)
+    (hown : ∃ c, h0.thread ev.tid = some (.base c)) : OvInv h0 (s.step ev) := by
+  obtain ⟨c0, hc0⟩ := hown
+  cases ev with
+  | enter tid =>
+    simp only [Ev.tid] at hc0
+    simp only [HS.step, HS.enter]
+    cases hf : s.frames tid with
+    | some f => simp only; exact hi
+    | none =>
+      have hth := hi.idle tid hf
+      have hres : s.hub.resolve tid = some (.thread, .base c0) := by simp [Hub.resolve, hth, hc0]
+      simp only [hres]
+      refine ⟨?_, ?_, ?_⟩
+      · intro t ht
+        simp only [upd_apply] at ht
+        by_cases htt : t = tid
+        · simp [htt] at ht
+        · simp only [htt, if_false] at ht
+          simp only [Hub.bind, upd_apply, htt, if_false]
+          exact hi.idle t ht
+      · intro t f ht
+        simp only [upd_apply] at ht
+        by_cases htt : t = tid
+        · subst htt
+          simp only [if_true, Option.some.injEq] at ht
+          subst ht
+          simp [Hub.bind, hc0]
+        · simp only [htt, if_false] at ht
+          simp only [Hub.bind, upd_apply, htt, if_false]
+          exact hi.busy t f ht
+      · simp [Hub.bind]; exact hi.proc
+  | leave tid =>
+    simp only [HS.step, HS.leave]
+    cases hf : s.frames tid with
+    | none => simp only; exact hi
+    | some f =>
+      obtain ⟨hl, hth, hold, h0t⟩ := hi.busy tid f hf
+      simp only [hl, hold]
+      refine ⟨?_, ?_, ?_⟩
+      · intro t ht
+        simp only [upd_apply] at ht
+        by_cases htt : t = tid
+        · subst htt; simp [Hub.bind, h0t]
+        · simp only [htt, if_false] at ht
+          simp only [Hub.bind, upd_apply, htt, if_false]
+          exact hi.idle t ht
+      · intro t f' ht
+        simp only [upd_apply] at ht
+        by_cases htt : t = tid
+        · simp [htt] at ht
+        · simp only [htt, if_false] at ht
+          simp only [Hub.bind, upd_apply, htt, if_false]
+          exact hi.busy t f' ht
+      · simp [Hub.bind]; exact hi.proc
+
+theorem OvInv.run {h0 : Hub} {s : HS} (hi : OvInv h0 s) (evs : List Ev)
+    (hown : ∀ ev ∈ evs, ∃ c, h0.thread ev.tid = some (.base c)) : OvInv h0 (s.run evs) := by
+  induction evs generalizing s with
+  | nil => exact hi
+  | cons ev evs ih =>
+    simp only [HS.run, List.foldl_cons]
+    exact ih (hi.step ev (hown ev (by simp))) (fun e he => hown e (by simp [he]))
+
 end SqlObjVerif.Hub
